@@ -107,12 +107,32 @@ pub fn c04(tier: &str, seed: u64) -> Vec<Case> {
     // any index, unknown types, empty RDATA): what a forwarder serialises; framed like any other packet
     {
         let mut k = 0;
-        for (b, _) in crate::props::pk::hostile_messages(tier, seed ^ 0x4F4) {
+        // hand-written messages first: TXT records with empty character-strings in every position followed by
+        // another record; an EDNS message (OPT among other additional records)
+        let mut handmade: Vec<(Vec<u8>, String)> = vec![];
+        for strings in [vec![&b"a=b"[..], &b""[..], &b"c=d"[..]], vec![&b""[..], &b"x"[..]], vec![&b"x"[..], &b""[..]], vec![&b""[..], &b""[..], &b"k"[..], &b""[..]]] {
+            let mut m = vec![0u8, 5, 0x80, 0, 0, 0, 0, 2, 0, 0, 0, 0, 1, b't', 0, 0, 16, 0, 1, 0, 0, 0, 9];
+            let rdlen: usize = strings.iter().map(|x| x.len() + 1).sum();
+            m.extend_from_slice(&(rdlen as u16).to_be_bytes());
+            for x in &strings { m.push(x.len() as u8); m.extend_from_slice(x); }
+            m.extend_from_slice(&[0xC0, 12, 0, 1, 0, 1, 0, 0, 0, 9, 0, 4, 10, 0, 0, 1]);
+            handmade.push((m, "hand".into()));
+        }
+        for opt_first in [true, false] {
+            let mut m = vec![0u8, 6, 0x80, 0, 0, 0, 0, 0, 0, 0, 0, 2];
+            let opt = [0u8, 0, 41, 4, 0xD0, 0, 0, 0, 0, 0, 0];
+            let a = [1u8, b'h', 0, 0, 1, 0, 1, 0, 0, 0, 9, 0, 4, 10, 0, 0, 2];
+            if opt_first { m.extend_from_slice(&opt); m.extend_from_slice(&a); } else { m.extend_from_slice(&a); m.extend_from_slice(&opt); }
+            handmade.push((m, "hand".into()));
+        }
+        for (b, _) in handmade.into_iter().chain(crate::props::pk::hostile_messages(tier, seed ^ 0x4F4)) {
             if b.len() > 3000 { continue; }
             let b: &'static [u8] = Box::leak(b.into_boxed_slice());
             if let Ok(p) = std::panic::catch_unwind(|| Packet::parse(b)).unwrap_or(Err(SimpleDnsError::InsufficientData)) {
                 if p.answers.len() + p.name_servers.len() + p.additional_records.len() == 0 { continue; }
-                all.push((p, "parsed".to_string()));
+                // a forwarder's invariant: a message received with one OPT record is sent on with one OPT record
+                let opts_in = walker::walk(b).map(|w| w.sections[2].iter().filter(|e| e.typ == 41).count()).unwrap_or(9);
+                all.push((p, format!("parsed:{}", opts_in)));
                 k += 1;
                 if k >= (if thorough { 3000 } else { 300 }) { break; }
             }
@@ -128,6 +148,11 @@ pub fn c04(tier: &str, seed: u64) -> Vec<Case> {
         for (b, how) in [(&plain, "plain"), (&comp, "comp")] {
             let mut c = Case::oracle_only().tag(&format!("framing-{}", how)).tag(&tag);
             if let Some((k, m)) = framing_failure(&p, b) { c = c.fail(&k, format!("{}: {}", how, m)); }
+            if let Some(n) = tag.strip_prefix("parsed:") {
+                let opts_out = walker::walk(b).map(|w| w.sections[2].iter().filter(|e| e.typ == 41).count()).unwrap_or(9);
+                if n == "1" && opts_out != 1 { c = c.fail("opt-count", format!("{}: a message received with one OPT record is written with {}", how, opts_out)); }
+                if n == "0" && opts_out != 0 { c = c.fail("opt-count", format!("{}: a message received without an OPT record is written with {}", how, opts_out)); }
+            }
             // "exactly those entries": every owner and every name inside RDATA, read by the independent
             // decoder at the sites the walker finds, is the name of the packet's entry (the messages
             // beyond 16 KiB, where a pointer can be wrong without disturbing the framing)
